@@ -5,6 +5,8 @@
 import Wharf.Model.Basic
 import Wharf.Model.Util
 import Wharf.Model.Rsync
+import Wharf.Model.Overlay
+import Wharf.Model.Validate
 
 open Wharf Wharf.Util
 
@@ -29,9 +31,76 @@ def doC11 (args : List String) : IO String := do
     return ";".intercalate (ops.map (showOp src))
   | _ => return "bad-op"
 
+def showOOp : Overlay.OOp → String
+  | .skip n => s!"S {n}"
+  | .fresh d => s!"F {d.length} {fnvList d}"
+  | .done => "E"
+
+def parseEvents (s : String) : List Overlay.Ev :=
+  (s.splitOn ",").filterMap fun t =>
+    if t.startsWith "w" then some (.write (parseNat (t.drop 1).toString))
+    else if t == "f" || t == "x" then some .flush
+    else none
+
+/-- `c14 <bufSize> <threshold> <old> <new> <events>` -/
+def doC14 (args : List String) : IO String := do
+  match args with
+  | [bufS, thr, oldT, newT, evs] =>
+    let old := (← readContent oldT).toList
+    let new := (← readContent newT).toList
+    let P : Overlay.Params := { bufSize := parseNat bufS, threshold := parseNat thr }
+    let ws := Overlay.bufioWindows P.bufSize (parseEvents evs) 0
+    let ops := Overlay.writeWindows P old new 0 ws
+    let res := Overlay.patch (ops ++ [.done]) old
+    return ";".intercalate (ops.map showOOp) ++ s!" | {res.length} {fnvList res}"
+  | [bufS, thr, oldT, newT] =>
+    -- no events: empty new content
+    let old := (← readContent oldT).toList
+    let new := (← readContent newT).toList
+    let P : Overlay.Params := { bufSize := parseNat bufS, threshold := parseNat thr }
+    let ops := Overlay.writeWindows P old new 0 []
+    let res := Overlay.patch (ops ++ [.done]) old
+    return ";".intercalate (ops.map showOOp) ++ s!" | {res.length} {fnvList res}"
+  | _ => return "bad-op"
+
+def showWound (w : Validate.Wound) : String :=
+  let k := match w.kind with
+    | .file => "W" | .closedFile => "H" | .dir => "D" | .symlink => "L"
+  s!"{k} {w.start} {w.stop}"
+
+def splitAtCuts : List Nat → List Byte → List (List Byte)
+  | [], _ => []
+  | n :: ns, l => l.take n :: splitAtCuts ns (l.drop n)
+
+/-- `c18 <e|w> <bs> <S> <D> <cuts|->` : write D in the given slices, stop at the first failing call, close. -/
+def doC18 (args : List String) : IO String := do
+  match args with
+  | [mode, bsS, sT, dT, cutS] =>
+    let S := (← readContent sT).toList
+    let D := (← readContent dT).toList
+    let bs := parseNat bsS
+    let wound := mode == "w"
+    let cuts := if cutS == "-" then [] else (cutS.splitOn ",").map parseNat
+    let slices := splitAtCuts cuts D
+    let mut d : Validate.Drip := {}
+    let mut okCalls := 0
+    for sl in slices do
+      if d.err then break
+      d := Validate.dripWrite wound bs S 0 d sl
+      if !d.err then okCalls := okCalls + 1
+    let failedBefore := d.err
+    d := Validate.dripClose wound bs S 0 d
+    let closeS := if d.err then "err" else "ok"
+    let _ := failedBefore
+    return s!"calls={okCalls}/{slices.length} close={closeS} inner={d.inner.length} {fnvList d.inner} wounds=" ++
+      ";".intercalate (d.wounds.map showWound)
+  | _ => return "bad-op"
+
 def dispatch (line : String) : IO String := do
   match line.trimAscii.toString.splitOn " " with
   | "c11" :: args => doC11 args
+  | "c14" :: args => doC14 args
+  | "c18" :: args => doC18 args
   | ["ping"] => return "pong"
   | _ => return "bad-op"
 
